@@ -286,10 +286,16 @@ class TcpConnection():
                 self.sock.send(b"")
                 return True
 
+            except BlockingIOError:
+                #: The connection attempt is still in progress.
+                continue
+
             except OSError as e:
-                if e.args[0] == 10057:
-                    self.connection_attempts -= self.connection_attempts
-                    return False
+                #: Refused, reset, unreachable, ... (WSAENOTCONN 10057 on
+                #: Windows; ECONNREFUSED, then EPIPE, on Linux): the connection
+                #: is not going to come up.
+                self.connection_attempts -= self.connection_attempts
+                return False
 
 
 
